@@ -210,6 +210,11 @@ func MustParse(s string) *Type {
 
 // ---- encoding ----
 
+// LCKeyWidth, when >= 0, forces the key width code (0..3 = UInt8..UInt64) the reference
+// encoder uses for LowCardinality columns: every width that can hold the keys is valid on
+// the wire, the library itself always writes the narrowest.
+var LCKeyWidth = -1
+
 // EncodeColumn writes the column body as it appears inside a block: state prefixes, then
 // data. Nothing is written for zero rows.
 func (t *Type) EncodeColumn(w *refwire.W, vals []any) {
@@ -367,6 +372,9 @@ func (t *Type) encodeData(w *refwire.W, vals []any) {
 		default:
 			kw = 2
 		}
+		if LCKeyWidth > kw {
+			kw = LCKeyWidth
+		}
 		w.U64(uint64(kw) | 1<<9 | 1<<10)
 		w.U64(uint64(len(dict)))
 		t.Elems[0].encodeData(w, dict)
@@ -379,6 +387,8 @@ func (t *Type) encodeData(w *refwire.W, vals []any) {
 				w.U16(uint16(k))
 			case 2:
 				w.U32(uint32(k))
+			case 3:
+				w.U64(uint64(k))
 			}
 		}
 	}
